@@ -115,17 +115,18 @@ func fail(msg string) {
 // touches shared policy/sink data without passing through a synchronisation operation, and the race detector treats
 // the metric atomics in between as synchronisation.
 var pointFiles = map[string]bool{
-	"handlers.go":                                       true,
-	"cmds/server/handlers/acct.go":                      true,
-	"cmds/server/handlers/author.go":                    true,
-	"cmds/server/handlers/authen.go":                    true,
-	"cmds/server/handlers/authen_ascii.go":              true,
-	"cmds/server/handlers/authen_pap.go":                true,
-	"cmds/server/handlers/response_logger.go":           true,
-	"cmds/server/config/aaa.go":                         true,
-	"cmds/server/config/accounters/local/local.go":      true,
-	"cmds/server/config/authenticators/shared.go":       true,
-	"cmds/server/config/authorizers/stringy/stringy.go": true,
+	"handlers.go":                                        true,
+	"cmds/server/handlers/acct.go":                       true,
+	"cmds/server/handlers/author.go":                     true,
+	"cmds/server/handlers/authen.go":                     true,
+	"cmds/server/handlers/authen_ascii.go":               true,
+	"cmds/server/handlers/authen_pap.go":                 true,
+	"cmds/server/handlers/response_logger.go":            true,
+	"cmds/server/config/aaa.go":                          true,
+	"cmds/server/config/accounters/local/local.go":       true,
+	"cmds/server/config/authenticators/shared.go":        true,
+	"cmds/server/config/authenticators/bcrypt/bcrypt.go": true,
+	"cmds/server/config/authorizers/stringy/stringy.go":  true,
 }
 
 // autoSpecs scans the in-scope files that are not listed explicitly.
